@@ -352,6 +352,7 @@ class Property(cssutils.util.Base):
             seq=newseq,
             tokenizer=self._tokenize2(priority),
             productions={'CHAR': _char, 'IDENT': _ident},
+            new=new,
         )
         wellformed = wellformed and new['wellformed']
 
